@@ -152,3 +152,29 @@ Example double_fetch_refuted :
   | _ => False
   end.
 Proof. vm_compute. repeat split. Qed.
+
+(* the address handed to the verifier by copy_and_verify_buffer_address was range-checked: it is null, or the whole
+   buffer [v, v + size) lies in sandbox memory - whatever the adversary does at the interleave points (including the
+   one inside the range check) *)
+Lemma buffer_address_checked sc total size cell m t v m' t' :
+  vrun sc (cv_buffer_address total size cell) m t = Ok (v, m', t') ->
+  v = 0 \/ v + size <= total.
+Proof.
+  unfold cv_buffer_address. intros H. cbn [vrun] in H.
+  destruct (negb (size =? 0)); [|discriminate]. cbn [vrun] in H.
+  apply rd_bytes_inv in H as (bs & L & H). cbn [rev app] in H.
+  destruct (le4 bs =? 0) eqn:E.
+  - cbn [vrun] in H. inversion H. left. reflexivity.
+  - cbn [vrun] in H. destruct (le4 bs + size <=? total) eqn:C; [|discriminate].
+    cbn [vrun] in H. inversion H; subst. right. apply Z.leb_le. exact C.
+Qed.
+
+(* a variant that hands over a second fetch is refuted: the cell is rewritten at the interleave point inside the check *)
+Lemma buffer_address_refetch_refuted :
+  let m0 := [16; 0; 0; 0] in
+  let sc := fun i : nat => match i with 1%nat => [(0%nat, 250)] | _ => [] end in
+  match vrun sc (cv_buffer_address_refetch 256 64 0) m0 0 with
+  | Ok (v, _, _) => v = 250 /\ ~ (v = 0 \/ v + 64 <= 256)
+  | _ => False
+  end.
+Proof. vm_compute. split; [reflexivity|]. intros [H|H]; [discriminate | apply H; reflexivity]. Qed.
